@@ -197,6 +197,7 @@ def cases(tier, seed):
                              mode=str(rng.choice(["det", "auto", "he"], p=[0.6, 0.15, 0.25])), cons=cons, options=opts,
                              max_fun_evals=int(rng.choice([50, 80, 120])))
         out.append({"kind": "run", "spec": spec})
+    out += C.option_variation_slice("C18", tier, seed, kind="run")
     return out
 
 
